@@ -3,10 +3,10 @@ CONSTANTS
   NW = 2
   Family = "c12-quick"
   PeerCounts = {1, 2}
-  MaxChanges = 2
+  MaxChanges = 1
   Faithful = FALSE
   ShareIdentical = TRUE
-  CachedDecide = TRUE
+  CachedDecide = FALSE
   AtomicReload = FALSE
 INVARIANTS TypeOK WorkersShare DestsIsolated DefsIsolated RegistryGoals WorkerGoals PeerCountCurrent 
 PROPERTIES CacheStable RegistryMonotone
